@@ -39,7 +39,7 @@ from harness.lib import coqbuild, gcs3, gcsim
 from harness.lib.coqio import Nat, to_coq
 
 LEVEL = "proof"
-THEOREMS = ["C05_norm_agree", "C05_gc_safe", "C05_gc_live", "C05_no_abort", "C05_history", "C05_append_commits"]
+THEOREMS = ["C05_norm_agree", "C05_gc_safe", "C05_gc_live", "C05_no_abort", "C05_history", "C05_append_commits", "C05_alias_never_committed"]
 REQ = gcsim.REQ + ["DS.Model.GCHist"]
 TIMEOUT_MS = 24 * 3600 * 1000
 
@@ -73,8 +73,10 @@ def gen_ops(rng: random.Random, n: int, final_grace: int) -> List[Dict[str, Any]
     ops: List[Dict[str, Any]] = [{"op": "append", "spell": 0}]
     for _ in range(n - 2):
         r = rng.random()
-        if r < 0.28:
-            ops.append({"op": "append", "spell": rng.choice([0, 0, 0, 1, 2, 1, 2, 3, 4])})
+        if r < 0.18:
+            ops.append({"op": "append", "spell": rng.choice([0, 0, 0, 1, 2, 1, 2, 3, 4, 5])})
+        elif r < 0.30:
+            ops.append({"op": "append_prebuilt", "spell": rng.randrange(6), "fmt": rng.choice(["parquet", "parquet", "other"])})
         elif r < 0.38:
             ops.append({"op": "multi", "appends": rng.choice([1, 2]), "delete": rng.choice([None, rng.randrange(8)])})
         elif r < 0.50:
@@ -127,10 +129,10 @@ def _schema():
 
 
 def _spell(path: str, spell: int) -> str:
-    """0..2: the canonical spellings of one file; 3, 4: spellings that only a filesystem identifies with it."""
+    """0..2: the canonical spellings of one file; 3..5: spellings that only a filesystem identifies with it."""
     rel = path.lstrip("/")
     d, _, name = rel.rpartition("/")
-    return ["/" + rel, rel, "//" + rel, f"{d}//{name}", f"{d}/./{name}"][spell]
+    return ["/" + rel, rel, "//" + rel, f"{d}//{name}", f"{d}/./{name}", f"{d}/x/../{name}"][spell]
 
 
 def exec_history(case: Dict[str, Any]) -> Dict[str, Any]:
@@ -147,7 +149,10 @@ def exec_history(case: Dict[str, Any]) -> Dict[str, Any]:
         if cwd:
             os.chdir(cwd)
         from datashard import create_table
-        t = create_table(tp, _schema())
+        sch = _schema()
+        # a table WITHOUT a persisted schema is a supported (legacy) mode: records then carry their schema explicitly and
+        # pre-built files are appended unchecked -- the path guards must not depend on the schema being there
+        t = create_table(tp) if case.get("schemaless") else create_table(tp, sch)
         reader = gcsim.IndepReader(root)
         open_txs: List[Tuple[Any, List[str]]] = []   # (tx, files it wrote)
         counter = itertools.count()
@@ -159,7 +164,7 @@ def exec_history(case: Dict[str, Any]) -> Dict[str, Any]:
             try:
                 if kind == "append":
                     tx = t.new_transaction().begin()
-                    tx.append_data([{"x": next(counter)}])
+                    tx.append_data([{"x": next(counter)}], schema=sch)
                     if op["spell"]:
                         # the same file handed to the public append_files() under another spelling of its path
                         files = tx._operations.pop()["files"]
@@ -169,10 +174,30 @@ def exec_history(case: Dict[str, Any]) -> Dict[str, Any]:
                             tx.rollback()
                             raise
                     tx.commit()
+                elif kind == "append_prebuilt":
+                    # a data file written by the caller (not by append_data) and handed to append_files under some spelling
+                    import pyarrow as pa
+                    import pyarrow.parquet as pq
+                    from datashard.data_structures import DataFile, FileFormat
+                    name = f"pre_{opi}_{next(counter)}.parquet"
+                    full = os.path.join(os.path.realpath(root), "data", name)
+                    os.makedirs(os.path.dirname(full), exist_ok=True)
+                    pq.write_table(pa.table({"x": pa.array([next(counter), next(counter)], pa.int64())}), full)
+                    fmt = FileFormat.PARQUET if op.get("fmt", "parquet") == "parquet" else [f for f in FileFormat if f != FileFormat.PARQUET][0]
+                    tx = t.new_transaction().begin()
+                    try:
+                        tx.append_files([DataFile(file_path=_spell(f"data/{name}", op["spell"]), file_format=fmt, partition_values={},
+                                                  record_count=2, file_size_in_bytes=os.path.getsize(full))])
+                        tx.commit()
+                    except Exception:
+                        tx.rollback()
+                        if os.path.exists(full):
+                            os.remove(full)          # the refused file is the caller's to clean up
+                        raise
                 elif kind == "multi":
                     tx = t.new_transaction().begin()
                     for _ in range(op["appends"]):
-                        tx.append_data([{"x": next(counter)}, {"x": next(counter)}])
+                        tx.append_data([{"x": next(counter)}, {"x": next(counter)}], schema=sch)
                     if op["delete"] is not None:
                         cur = _current_files(reader)
                         if cur:
@@ -202,7 +227,7 @@ def exec_history(case: Dict[str, Any]) -> Dict[str, Any]:
                         if len(open_txs) < (2 if kind == "open_tx" else 10):
                             before = set(gcsim.list_tree(root))
                             tx = t.new_transaction().begin()
-                            tx.append_data([{"x": next(counter)}])
+                            tx.append_data([{"x": next(counter)}], schema=sch)
                             wrote = sorted(k for k in set(gcsim.list_tree(root)) - before if k.startswith("data/"))
                             open_txs.append((tx, wrote))
                 elif kind in ("commit_tx", "rollback_tx"):
@@ -362,7 +387,8 @@ def make_cases(ctx) -> List[Dict[str, Any]]:
                 ops = gen_ops(r, length, g)
                 if rep == 0 and sp.startswith("s3:"):
                     ops.insert(len(ops) - 1, {"op": "open_many", "n": 9})
-                cases.append({"spelling": sp, "seed": seed, "ops": ops, "base": os.path.join(ctx.scratch, f"h{n}")})
+                cases.append({"spelling": sp, "seed": seed, "ops": ops, "base": os.path.join(ctx.scratch, f"h{n}"),
+                              "schemaless": rep % 2 == 1})
                 n += 1
     return cases
 
@@ -400,7 +426,7 @@ def run_histories(ctx) -> None:
         agg["op_errors"] += len(res["op_errors"])
         for v in res["violations"]:
             key = v["key"]
-            payload_case = {"spelling": case["spelling"], "seed": case["seed"], "ops": case["ops"]}
+            payload_case = {"spelling": case["spelling"], "seed": case["seed"], "ops": case["ops"], "schemaless": bool(case.get("schemaless"))}
             if key not in seen_keys and not key.startswith("hang:"):
                 seen_keys.add(key)
                 small = shrink(case, key)
@@ -577,7 +603,8 @@ def replay(ctx, payload) -> int:
     if "ops" not in case:
         print("replay: payload names a broken proof / correspondence; re-run ./bin/check C05 thorough")
         return 2
-    res = exec_history({"spelling": case["spelling"], "seed": case.get("seed"), "ops": case["ops"], "base": os.path.join(ctx.scratch, "replay")})
+    res = exec_history({"spelling": case["spelling"], "seed": case.get("seed"), "ops": case["ops"], "schemaless": bool(case.get("schemaless")),
+                        "base": os.path.join(ctx.scratch, "replay")})
     for v in res["violations"]:
         print("replay: STILL FAILS", v["key"], "-", v["what"])
     if not res["violations"]:
